@@ -74,6 +74,11 @@ type (
 	Marsh struct{ V int }
 )
 
+// PMarsh marshals itself through a method with a pointer receiver.
+type PMarsh struct{ V int }
+
+func (m *PMarsh) MarshalValue() data.Value { return data.String("pmarsh:" + strconv.Itoa(m.V)) }
+
 func (m Marsh) MarshalValue() data.Value { return data.String("marsh:" + strconv.Itoa(m.V)) }
 
 // named scalar types that marshal themselves
@@ -336,6 +341,67 @@ func build(r Recipe, c *C20Case) (interface{}, ref.Value) {
 			s[i], l[i] = e.S, ref.S(e.S)
 		}
 		return s, ref.L(l...)
+	case "big":
+		// a long slice whose elements are told apart by their index (r.S: the element type)
+		n := int(r.U)
+		l := make([]ref.Value, n)
+		s1 := func(i int) (S1, ref.Value) {
+			v, exp := mkS1(Recipe{S: "row" + strconv.Itoa(i), I: int64(i), F: strconv.Itoa(i % 7)})
+			return v, exp(lower)
+		}
+		switch r.S {
+		case "s1":
+			s := make([]S1, n)
+			for i := range s {
+				s[i], l[i] = s1(i)
+			}
+			return s, ref.L(l...)
+		case "ptr_s1":
+			s := make([]*S1, n)
+			for i := range s {
+				if i%5 == 3 {
+					l[i] = ref.N()
+					continue
+				}
+				v, e := s1(i)
+				s[i], l[i] = &v, e
+			}
+			return s, ref.L(l...)
+		case "time":
+			s := make([]time.Time, n)
+			for i := range s {
+				s[i] = time.Unix(r.I%4102444800+int64(i)*86400, 0).UTC()
+				l[i] = ref.S(s[i].Format(timeFmt(c.TimeFormat)))
+			}
+			return s, ref.L(l...)
+		case "marsh":
+			s := make([]Marsh, n)
+			for i := range s {
+				s[i], l[i] = Marsh{i}, ref.S("marsh:"+strconv.Itoa(i))
+			}
+			return s, ref.L(l...)
+		case "any":
+			s := make([]interface{}, n)
+			for i := range s {
+				if i%2 == 0 {
+					s[i], l[i] = s1(i)
+				} else {
+					s[i], l[i] = i, ref.I(int64(i))
+				}
+			}
+			return s, ref.L(l...)
+		case "map":
+			s := make([]map[string]int, n)
+			for i := range s {
+				s[i], l[i] = map[string]int{"i": i}, ref.M(map[string]ref.Value{"i": ref.I(int64(i))})
+			}
+			return s, ref.L(l...)
+		}
+		s := make([]int, n)
+		for i := range s {
+			s[i], l[i] = i, ref.I(int64(i))
+		}
+		return s, ref.L(l...)
 	case "slice_nil":
 		return []string(nil), ref.L()
 	case "slice_ptr":
@@ -397,6 +463,10 @@ func build(r Recipe, c *C20Case) (interface{}, ref.Value) {
 		case *S1:
 			return &x, e
 		case *int:
+			return &x, e
+		case *PMarsh:
+			return &x, e
+		case *Marsh:
 			return &x, e
 		}
 		return &v, e // *interface{}
@@ -545,6 +615,9 @@ func build(r Recipe, c *C20Case) (interface{}, ref.Value) {
 		return Marsh{int(r.I % 1000)}, ref.S("marsh:" + strconv.Itoa(int(r.I%1000)))
 	case "ptr_marsh":
 		return &Marsh{int(r.I % 1000)}, ref.S("marsh:" + strconv.Itoa(int(r.I%1000)))
+	case "ptr_pmarsh":
+		// a marshaler whose method has a pointer receiver: the pointer is the marshaler
+		return &PMarsh{int(r.I % 1000)}, ref.S("pmarsh:" + strconv.Itoa(int(r.I%1000)))
 	case "value":
 		// an existing Soy value passes through unchanged
 		v, e := build(el(r, 0), c)
@@ -560,7 +633,7 @@ var (
 	c20Strs   = []string{"", "a", "0", "false", "null", "é", "<b>", "日本", "a b", "x\x00y", "\xff"}
 	c20Leaf   = []string{"local_a", "local_b", "bag", "ptr_bag", "nil_bag", "attrs", "nil_attrs", "nil", "bool", "mybool", "int", "int8", "int16", "int32", "int64", "myint", "uint", "uint8", "uint16", "uint32", "uint64", "uintptr", "array_int", "array_empty",
 		"float64", "float32", "myfloat", "string", "mystr", "time", "slice_nil", "map_nil", "nilptr_struct", "nilptr_int", "nilptr_ptr", "nilptr_marsh",
-		"s1", "s3", "marsh", "ptr_marsh", "slice_int", "slice_str", "map_int", "level", "label", "slice_level", "slice_label", "slice_marsh", "map_level", "struct_level", "slice_time"}
+		"s1", "s3", "marsh", "ptr_marsh", "ptr_pmarsh", "slice_int", "slice_str", "map_int", "level", "label", "slice_level", "slice_label", "slice_marsh", "map_level", "struct_level", "slice_time"}
 	c20Node = []string{"slice_any", "map_any", "map_named", "ptr", "s2", "value", "slice_ptr"}
 )
 
@@ -671,12 +744,20 @@ func genRecipe(t *rapid.T, depth int) Recipe {
 
 func genC20(t *rapid.T) C20Case {
 	d := scale(3, 4)
-	return C20Case{
+	c := C20Case{
 		A:          genRecipe(t, d),
 		B:          genRecipe(t, d),
 		LowerCamel: rapid.Bool().Draw(t, "lowerCamel"),
 		TimeFormat: rapid.SampledFrom([]string{time.RFC3339, "2006-01-02", time.RFC1123Z, time.RFC3339Nano, ""}).Draw(t, "timeFormat"),
 	}
+	if rapid.IntRange(0, 119).Draw(t, "big") == 57 {
+		// a long slice (tables of thousands of rows are ordinary template data)
+		c.A = Recipe{T: "big",
+			S: rapid.SampledFrom([]string{"s1", "ptr_s1", "time", "marsh", "any", "map", "int"}).Draw(t, "bigElem"),
+			U: uint64(rapid.SampledFrom([]int{1000, 1023, 1024, 1025, 4095, 4096, 4097, 5000, 8192, 10000, 16384, 40000, 65536, 70000}).Draw(t, "bigLen")),
+			I: rapid.Int64Range(0, 4102444800).Draw(t, "bigSec")}
+	}
+	return c
 }
 
 var (
@@ -722,7 +803,14 @@ func checkC20(c C20Case) Verdict {
 			return bad(true, "%s: conversion produced a non-Soy value %T", r.T, v)
 		}
 		if !ref.DeepEqual(got, exp) {
-			return bad(true, "%s: converted to %#v, want %#v", r.T, got, exp)
+			if got.K == ref.List && exp.K == ref.List && len(got.L) == len(exp.L) {
+				for j := range got.L {
+					if !ref.DeepEqual(got.L[j], exp.L[j]) {
+						return bad(true, "%s (%s, %d elements): element %d converted to %#v, want %#v", r.T, r.S, len(exp.L), j, got.L[j], exp.L[j])
+					}
+				}
+			}
+			return bad(true, "%s: converted to %s, want %s", r.T, trunc(fmt.Sprintf("%#v", got), 2000), trunc(fmt.Sprintf("%#v", exp), 2000))
 		}
 		// converting again (the result, and the Go value) changes nothing
 		v2, err := convert(opts, v)
